@@ -11,30 +11,30 @@ from translate import strip
 HERE = os.path.dirname(os.path.abspath(__file__))
 REF = os.path.join(HERE, 'pins.json')
 ALL = r'.*'
-# property -> {file: [regexes over item headers]}   (scopes follow the anchors of properties.jsonl, narrowed to the items the model of that property represents)
+# property -> {file: [regexes over item headers]}   (scopes follow the anchors of properties.jsonl, narrowed to the items the model of that property represents, and widened to the items of other modules that code merely depends on - round 13 of DESIGN section 8)
 VALUE_OPS = [r'impl (Neg|Not|Add|Sub|Mul|Div|Rem|BitXor) for Value', r'impl Value\b']
 VALUE_ORD = [r'impl (Ord|PartialOrd|PartialEq|Eq) for Value', r'impl Value\b']
 SCOPE = {
     'C01': {'src/compiler.rs': [ALL], 'src/token.rs': [ALL], 'src/operator.rs': [ALL], 'src/lib.rs': [ALL]},
-    'C02': {'src/scanner.rs': [ALL], 'src/token.rs': [r'enum Token']},
-    'C03': {'src/interpreter.rs': [ALL], 'src/value.rs': VALUE_OPS + VALUE_ORD, 'src/lib.rs': [ALL]},
-    'C04': {'src/interpreter.rs': [ALL]},
-    'C05': {'src/optimizer.rs': [ALL], 'src/environment.rs': [r'impl Environment for StaticEnvironment']},
-    'C06': {'src/optimizer.rs': [ALL], 'src/environment.rs': [r'impl Environment for StaticEnvironment'], 'src/function.rs': [ALL]},
-    'C07': {'src/scanner.rs': [ALL], 'src/compiler.rs': [ALL], 'src/lib.rs': [ALL]},
+    'C02': {'src/scanner.rs': [ALL], 'src/token.rs': [r'enum Token'], 'src/lib.rs': [ALL]},
+    'C03': {'src/interpreter.rs': [ALL], 'src/value.rs': VALUE_OPS + VALUE_ORD, 'src/lib.rs': [ALL], 'src/environment.rs': [r'impl Environment for StaticEnvironment', r'impl StaticEnvironment']},
+    'C04': {'src/interpreter.rs': [ALL], 'src/value.rs': [r'impl Value\b', r'impl PartialEq for Value']},
+    'C05': {'src/optimizer.rs': [ALL], 'src/environment.rs': [r'impl Environment for StaticEnvironment'], 'src/interpreter.rs': [ALL], 'src/lib.rs': [ALL], 'src/value.rs': VALUE_OPS},
+    'C06': {'src/optimizer.rs': [ALL], 'src/environment.rs': [r'impl Environment for StaticEnvironment'], 'src/function.rs': [ALL], 'src/interpreter.rs': [ALL], 'src/lib.rs': [ALL]},
+    'C07': {'src/scanner.rs': [ALL], 'src/compiler.rs': [ALL], 'src/lib.rs': [ALL], 'src/token.rs': [ALL]},
     'C08': {'src/interpreter.rs': [ALL], 'src/optimizer.rs': [ALL], 'src/validate.rs': [ALL], 'src/ast.rs': [ALL], 'src/operator.rs': [ALL], 'src/value.rs': [ALL], 'src/environment.rs': [ALL]},
     'C09': {'src/stdlib/mod.rs': [ALL], 'src/stdlib/common.rs': [ALL], 'src/stdlib/math.rs': [ALL], 'src/stdlib/string.rs': [ALL], 'src/stdlib/time.rs': [ALL], 'src/stdlib/regex.rs': [ALL],
             'src/value.rs': VALUE_ORD + [r'impl Hash for Value', r'impl Display for Value']},
     'C10': {'src/validate.rs': [r'fn check_variables_and_functions', r'fn check_expressions'], 'src/environment.rs': [ALL], 'src/function.rs': [ALL]},
     'C11': {'src/validate.rs': [r'fn check_boolean_result'], 'src/interpreter.rs': [ALL], 'src/value.rs': [r'impl (Not|BitXor|Ord|PartialOrd|PartialEq) for Value', r'impl Value\b']},
-    'C12': {'src/ast.rs': [ALL], 'src/operator.rs': [ALL], 'src/value.rs': [r'impl Serialize for Value', r'Deserialize', r'Visitor', r'enum Value']},
+    'C12': {'src/ast.rs': [ALL], 'src/operator.rs': [ALL], 'src/value.rs': [r'impl Serialize for Value', r'Deserialize', r'Visitor', r'enum Value'], 'src/optimizer.rs': [ALL]},
     'C13': {'src/value.rs': VALUE_ORD, 'src/stdlib/common.rs': [r'fn (between|compare|max|min|sort)\b'], 'src/stdlib/mod.rs': [r'fn smart_vec'], 'src/interpreter.rs': [ALL]},
     'C14': {'src/value.rs': [r'impl (Hash|PartialEq|Eq|Ord|PartialOrd) for Value'], 'src/stdlib/mod.rs': [ALL], 'src/stdlib/common.rs': [ALL], 'src/stdlib/math.rs': [ALL], 'src/stdlib/string.rs': [ALL],
             'src/stdlib/time.rs': [ALL], 'src/stdlib/regex.rs': [ALL], 'src/function.rs': [ALL], 'src/environment.rs': [r'impl Environment for StaticEnvironment'], 'src/optimizer.rs': [r'fn fold_constants', r'fn expressions_are_const']},
     'C15': {'src/stdlib/common.rs': [ALL], 'src/stdlib/string.rs': [ALL], 'src/stdlib/mod.rs': [ALL], 'src/value.rs': [r'impl (PartialEq|Eq|Hash|Ord|PartialOrd) for Value', r'impl Value\b']},
     'C16': {'src/stdlib/time.rs': [ALL], 'src/stdlib/math.rs': [r'generate_std_math_functions', r'fn (trunc|frac)\b']},
     'C17': {'src/stdlib/math.rs': [ALL], 'src/stdlib/string.rs': [r'fn (chr|ord)\b'], 'src/stdlib/common.rs': [r'fn (str|float|int|bool)\b'], 'src/stdlib/mod.rs': [ALL], 'src/value.rs': [r'impl Display for Value', r'impl Value\b']},
-    'C18': {'src/stdlib/regex.rs': [ALL]},
+    'C18': {'src/stdlib/regex.rs': [ALL], 'src/stdlib/mod.rs': [r'fn usize_from_f64', r'fn default_']},
     'C19': {'src/environment.rs': [ALL], 'src/function.rs': [ALL]},
 }
 
